@@ -352,6 +352,18 @@ func runNarrowingExact(rr *RuleRun) {
 							other = be.Y
 						}
 						oo := objOf(info, other)
+						if tv, isConst := info.Types[other]; (!isConst || tv.Value == nil) && !bad {
+							approx := false
+							for _, s2 := range sites {
+								if s2.acc == nil && s2.x == oo && oo != nil {
+									approx = true
+								}
+							}
+							if !approx {
+								bad = true
+								rr.Violation(key, u.Pos(), fmt.Sprintf("%s is the result of %s() whose accuracy is discarded, and it is compared with %s (%s): a number that does not fit the machine type narrows to the type's limit (or loses its fraction), so the comparison equates / orders numbers that differ (use big.Float.Cmp, or test the accuracy)", s.x.Name(), s.meth, trunc(exprStr(other), 30), be.Op))
+							}
+						}
 						for _, s2 := range sites {
 							if s2.acc == nil && s2.x == oo && oo != nil {
 								bad = true
